@@ -5,6 +5,18 @@ sys.path.insert(0, os.path.dirname(os.path.abspath(__file__)))
 import manifest_data as M
 import props as P
 
+def hook_commits():
+    """every commit of /repo whose subject starts with "verif:" (hooks and instrumentation), oldest first;
+    falls back to the hand-kept list when /repo is not a git checkout"""
+    import subprocess
+    try:
+        out = subprocess.run(["git", "-C", "/repo", "log", "--reverse", "--format=%h %s"], capture_output=True, text=True, check=True).stdout
+        got = [l.split()[0] for l in out.splitlines() if len(l.split()) > 1 and l.split()[1] == "verif:"]
+        return got or M.HOOK_COMMITS
+    except Exception:
+        return M.HOOK_COMMITS
+
+
 checks = []
 for pid in sorted(P.PROPS):
     d = P.PROPS[pid]["manifest"]
@@ -26,7 +38,7 @@ man = {
         "guard": "verif",
         "enable": "go build -tags verif (the harness module /verif/harness replaces github.com/wizenheimer/comet by /repo)",
         "baseline_off_cmd": "cd /repo && go test -mod=mod -vet=off -count=1 -timeout 25m ./...",
-        "source_commits": M.HOOK_COMMITS,
+        "source_commits": hook_commits(),
         "add_only": True,
     },
     "engines": [{
